@@ -60,6 +60,7 @@ func runC01(c *Ctx) {
 	ruleAppendTail(c, p, "C01.tail")
 	rulePrepareMethodSet(c, p, "C01.prepare-methodset")
 	ruleLimbPairs(c, p, "C01.limbs")
+	ruleResetComplete(c, p, "C01.reset-clears")
 	ruleMapInfer(c, p, "C01.mapinfer")
 	ruleStringIdioms(c, p, "C01.idioms")
 	ruleResetBefore(c, p, "C01.reset")
@@ -340,6 +341,11 @@ func ruleKeyWidth(c *Ctx, p *core.Program, rule string) {
 			continue
 		}
 		if len(tbl) < 4 {
+			// any other shape (a default arm for one width, an if-chain, a helper that returns the column):
+			// fold per constant - under key == K only the keysN column of K is reachable
+			if decided := keyColumnsPerConstant(c, p, rule, mn, fn, keyBits); decided {
+				continue
+			}
 			c.R.Unk(rule, "ColLowCardinality."+mn+"/switch", cfg, p.Pos(fn.Pos()), sprintf("switch on the key has %d cases, expected 4", len(tbl)))
 			continue
 		}
@@ -1258,4 +1264,99 @@ func ruleTranslatePerElement(c *Ctx, p *core.Program, rule string) {
 	}
 	c.R.Count("dictionary translation loops["+cfg+"]", n)
 	c.R.Floor(rule, cfg, n, 1)
+}
+
+// keyColumnsPerConstant decides the per-width clause of *.keywidth for a method
+// (or the same-type helpers it calls) whose dispatch on the key is not a
+// four-case switch: for each key constant K the CFG is pruned under key == K
+// and every keysN field still reachable must be the one of K.
+func keyColumnsPerConstant(c *Ctx, p *core.Program, rule, mn string, fn *ssa.Function, keyBits map[int64]int) bool {
+	cfg := p.Cfg.Name
+	cands := []*ssa.Function{fn}
+	for _, g := range core.StaticReachList(fn) {
+		if g == nil || g == fn || g.Blocks == nil {
+			continue
+		}
+		h := g
+		if h.Synthetic != "" {
+			for _, wc := range core.Calls(h) {
+				if o := core.StaticFn(wc); o != nil && o.Blocks != nil && strings.HasPrefix(h.Name(), o.Name()) {
+					h = o
+				}
+			}
+		}
+		if core.RecvNamed2(h) != nil && core.RecvNamed2(h).Obj().Name() == "ColLowCardinality" {
+			cands = append(cands, h)
+		}
+	}
+	isKey := func(v ssa.Value) bool { return core.IsNamed(v.Type(), core.PkgProto, "CardinalityKey") }
+	decided := false
+	for _, g := range cands {
+		hasCmp := false
+		for _, b := range g.Blocks {
+			for _, in := range b.Instrs {
+				if bo, ok := in.(*ssa.BinOp); ok && bo.Op == token.EQL && (isKey(bo.X) || isKey(bo.Y)) {
+					hasCmp = true
+				}
+			}
+		}
+		if !hasCmp {
+			continue
+		}
+		decided = true
+		okAll := true
+		for kv, bits := range keyBits {
+			want := sprintf("keys%d", bits)
+			feas := core.FeasibleUnder(g, func(cond ssa.Value) int {
+				bo, ok := cond.(*ssa.BinOp)
+				if !ok || (bo.Op != token.EQL && bo.Op != token.NEQ) {
+					return -1
+				}
+				var k int64
+				var okc bool
+				switch {
+				case isKey(bo.X):
+					k, okc = core.ConstInt(bo.Y)
+				case isKey(bo.Y):
+					k, okc = core.ConstInt(bo.X)
+				}
+				if !okc {
+					return -1
+				}
+				if (k == kv) == (bo.Op == token.EQL) {
+					return 1
+				}
+				return 0
+			})
+			seen := map[*ssa.BasicBlock]bool{g.Blocks[0]: true}
+			work := []*ssa.BasicBlock{g.Blocks[0]}
+			for len(work) > 0 {
+				b := work[len(work)-1]
+				work = work[:len(work)-1]
+				for i, s := range b.Succs {
+					if feas(b, i) && !seen[s] {
+						seen[s] = true
+						work = append(work, s)
+					}
+				}
+			}
+			for b := range seen {
+				for _, in := range b.Instrs {
+					fa, ok := in.(*ssa.FieldAddr)
+					if !ok {
+						continue
+					}
+					fname := fieldNameOnly(fa.X.Type(), fa.Field)
+					if strings.HasPrefix(fname, "keys") && fname != "keys" && fname != want {
+						okAll = false
+						c.R.Bad(rule, sprintf("ColLowCardinality.%s/case%d", mn, bits), cfg, p.Pos(fa.Pos()), sprintf("with %d-bit keys selected, %s reaches %s", bits, core.FuncName(g), fname))
+					}
+				}
+			}
+		}
+		if okAll {
+			c.R.Ok(rule, "ColLowCardinality."+mn+"/switch", cfg, p.Pos(g.Pos()), "folded per key width: only that width's key column is reachable (in "+core.FuncName(g)+")")
+		}
+	}
+	return decided
 }
